@@ -549,16 +549,21 @@ package xpath
 //@   ensures implies(tree_nav_err(ctx.current, old(toppath(ctx))) == nil && tree_val_err(askedNode(ctx)) == nil,
 //@           push1(ctx) && top(ctx) == tree_val(askedNode(ctx)) && ctx.res.runErr == old(ctx.res.runErr) && len(pstk(ctx)) == old(len(pstk(ctx))))
 
-// deref(): the leafref at the path is followed and the path continues from its target; a failure of the
-// tree stops the instruction (recorded as run error, or raised as a panic that Run converts).
+// deref(): the leafref at the path is followed and the path continues from a COPY of its target's path (the steps that
+// follow extend it, and the tree's own path object must not change); a failure of the tree stops the instruction
+// (recorded as run error, or raised as a panic that Run converts).
+//@ define lrefPath(ctx) = typed(tree_path(tree_lref(askedNode(ctx))), *sdcpb.Path)
 //@ func (*ProgBuilder).Deref$1
 //@   requires ctx != nil && pathWF(ctx) && ctx.current != nil && ctx.res != nil
 //@   modifies ctx.actualPathStack.stack
 //@   modifies elems(ctx.actualPathStack.stack)
 //@   modifies ctx.res.runErr
 //@   ensures implies(tree_nav_err(ctx.current, old(toppath(ctx))) != nil, ctx.res.runErr == tree_nav_err(ctx.current, old(toppath(ctx))))
-//@   ensures implies(tree_nav_err(ctx.current, old(toppath(ctx))) == nil, tree_lref_err(askedNode(ctx)) == nil && ctx.res.runErr == old(ctx.res.runErr) &&
-//@           len(pstk(ctx)) == old(len(pstk(ctx))) && toppath(ctx) == tree_path(tree_lref(askedNode(ctx))))
+//@   ensures implies(tree_nav_err(ctx.current, old(toppath(ctx))) == nil && tree_lref_err(askedNode(ctx)) != nil, ctx.res.runErr != nil)
+//@   ensures implies(tree_nav_err(ctx.current, old(toppath(ctx))) == nil && tree_lref_err(askedNode(ctx)) == nil, ctx.res.runErr == old(ctx.res.runErr) &&
+//@           len(pstk(ctx)) == old(len(pstk(ctx))) && toppath(ctx) != nil && isfresh(toppath(ctx)) &&
+//@           len(toppath(ctx).Elem) == len(lrefPath(ctx).Elem) && toppath(ctx).IsRootBased == lrefPath(ctx).IsRootBased &&
+//@           forall(i, 0, len(toppath(ctx).Elem), toppath(ctx).Elem[i].Name == lrefPath(ctx).Elem[i].Name))
 
 // ---------------------------------------------------------------------------
 // Lexer character classes (C04): exactly the XML NCName characters and the XPath whitespace set.
